@@ -159,7 +159,7 @@ PROPS = {
     ),
     "C13": dict(
         # Props.GoGroupSub: the model's subscribe step / clean-up = the translated bodies of partition.Subscribe / removeGroupSubscriber
-        lean_modules=["Liftbridge.Props.C13", "Liftbridge.Props.GoGroupSub"],
+        lean_modules=["Liftbridge.Props.C13", "Liftbridge.Props.GoGroupSub", "Liftbridge.Props.GoSubEntry"],
         gen_sources=["server/partition.go:partition.Subscribe", "server/partition.go:partition.newSubscribeLoop",
                      "server/partition.go:partition.removeGroupSubscriber"],
         runs=[dict(go_pkg="./server", test="TestVerifC13"), dict(go_pkg="./server", test="TestVerifC13Shapes")],
@@ -192,7 +192,7 @@ PROPS = {
     ),
     "C07": dict(
         # Props.GoPartition (go_RemoveFromISR / go_AddToISR): the persisted in-sync list, which a controller restored from a snapshot elects from, is exactly the in-sync set
-        lean_modules=["Liftbridge.Props.C07", "Liftbridge.Props.GoFailover", "Liftbridge.Props.GoPartition", "Liftbridge.Props.GoElect", "Liftbridge.Props.GoFence", "Liftbridge.Props.GoAck"],
+        lean_modules=["Liftbridge.Props.C07", "Liftbridge.Props.GoFailover", "Liftbridge.Props.GoPartition", "Liftbridge.Props.GoElect", "Liftbridge.Props.GoFence", "Liftbridge.Props.GoAck", "Liftbridge.Props.GoMetaApply"],
         gen_sources=["server/metadata.go", "server/failover.go", "server/fsm.go", "server/raft.go",
                      "server/partition.go:partition.SetLeader", "server/partition.go:partition.RemoveFromISR", "server/partition.go:partition.AddToISR",
                      "server/partition.go:gomini:partition.inISR", "server/partition.go:gomini:partition.ISRSize", "server/partition.go:gomini:partition.GetLeader"],
@@ -210,7 +210,7 @@ PROPS = {
         timeout={"quick": 900, "thorough": 3600},
     ),
     "C06": dict(
-        lean_modules=["Liftbridge.Props.C06", "Liftbridge.Props.GoFSM"],
+        lean_modules=["Liftbridge.Props.C06", "Liftbridge.Props.GoFSM", "Liftbridge.Props.GoMetaApply"],
         gen_sources=["server/fsm.go", "server/metadata.go", "server/partition.go", "server/groups.go", "server/protocol/internal.proto"],
         runs=[dict(go_pkg="./server", test="TestVerifC06"),
               dict(go_pkg="./server", test="TestVerifC06Race", go_flags=["-race"])],
